@@ -130,3 +130,5 @@ pub fn close(a: f64, b: f64) -> bool {
     let d = a - b;
     d < 1e-9 && d > -1e-9
 }
+
+// (the sample vectors of C08.cpr_location.samples.* are in spec/cpr_samples.rs and are inlined as literals into contracts/C08_position.rs)
